@@ -20,7 +20,7 @@
 //! `fn request` / `fn request_async` of the same impl — body, or `Box::pin(async move { body })`:
 //!   (let [mut] x = E;)*  loop { stmt* }
 //!   stmt := let x = E;
-//!         | if A <op> B { break E [;] }
+//!         | if A <op> B { break E [;] }                                  (`A < B` is recorded as `B > A`)
 //!         | match self.process_response(C(self.prepare_request()?)[.await], x) {
 //!               <..>::<Cont>(y) => x = y | { x = y [;] },   <..>::<Done>(r) => break r }
 //!         | f(x)[.await];
@@ -477,12 +477,13 @@ fn poll_loop(name: &str, f: &syn::ImplItemFn, cont: &str, done: &str) -> R<PollL
                         Some(x) => x,
                         None => return fail(FILE, item, "`if A <op> B { break E }` without `else`"),
                     };
-                    body.push(LoopStmt::BreakIf {
-                        lhs: canon(&env.resolve(&b.left)),
-                        op: canon(&b.op),
-                        rhs: canon(&env.resolve(&b.right)),
-                        result: canon(&env.resolve(brk)),
-                    });
+                    // `a < b` is recorded as `b > a` (and `<=` as `>=`)
+                    let (mut lhs, mut op, mut rhs) = (canon(&env.resolve(&b.left)), canon(&b.op), canon(&env.resolve(&b.right)));
+                    if op == "<" || op == "<=" {
+                        std::mem::swap(&mut lhs, &mut rhs);
+                        op = if op == "<" { ">".into() } else { ">=".into() };
+                    }
+                    body.push(LoopStmt::BreakIf { lhs, op, rhs, result: canon(&env.resolve(brk)) });
                 }
                 syn::Expr::Match(m) => {
                     // self.process_response(C(self.prepare_request()?)[.await], x)
